@@ -446,7 +446,9 @@ TraceReparse ==
 (*               every query that shows the record alive or gone                 *)
 \*   st.names  : owner names ever inserted since the last clear (the keys present in the trie): used only
 \*               by the diagnostic rule ImplExact, which binds the Impl lookup model of Store.tla to the code
-EmptyStore == [auth |-> {}, cached |-> <<>>, names |-> {}]
+\*   st.recv   : function key -> <<t0, t1, life>>: when (ms interval) the cached record was last received and its
+\*               effective TTL in seconds; used only by the diagnostic rule NextRefresh
+EmptyStore == [auth |-> {}, cached |-> <<>>, names |-> {}, recv |-> <<>>]
 
 TtlSeconds(ttl) == IF ttl[1] > 0 \/ ttl[2] > 0 THEN 1000000 ELSE ttl[3] * 256 + ttl[4]
 DropKey(f, k) == [x \in DOMAIN f \ {k} |-> f[x]]
@@ -460,12 +462,15 @@ TraceStoreOp ==
   /\ Ev.ev = "StoreOp"
   /\ Rule(l, "NoPanic", Ev.out # "panic", <<"store", Ev.op>>)
   /\ LET k == IF Ev.op = "clear" THEN <<>> ELSE KeyOf(Ev.rec) IN
-     CASE Ev.op = "add_auth" -> st' = [auth |-> st.auth \cup {k}, cached |-> DropKey(st.cached, k), names |-> st.names \cup {k.name}]
+     CASE Ev.op = "add_auth" -> st' = [auth |-> st.auth \cup {k}, cached |-> DropKey(st.cached, k), names |-> st.names \cup {k.name},
+                                       recv |-> DropKey(st.recv, k)]
        [] Ev.op = "add_cached" ->
             IF k \in st.auth THEN st' = st       \* a locally registered record stays authoritative
             ELSE LET life == (IF Ev.rec.cf THEN 1 ELSE TtlSeconds(Ev.rec.ttl)) * 1000 IN
-                 st' = [st EXCEPT !.cached = PutKey(@, k, <<Ev.t0 + life, Ev.t1 + life>>), !.names = @ \cup {k.name}]
-       [] Ev.op = "remove" -> st' = [auth |-> st.auth \ {k}, cached |-> DropKey(st.cached, k), names |-> st.names]
+                 st' = [st EXCEPT !.cached = PutKey(@, k, <<Ev.t0 + life, Ev.t1 + life>>), !.names = @ \cup {k.name},
+                                  !.recv = PutKey(@, k, <<Ev.t0, Ev.t1, life \div 1000>>)]
+       [] Ev.op = "remove" -> st' = [auth |-> st.auth \ {k}, cached |-> DropKey(st.cached, k), names |-> st.names,
+                                     recv |-> DropKey(st.recv, k)]
        [] Ev.op = "clear" -> st' = EmptyStore
 
 \* a store query over [t0, t1] with one of the four filters returned the records e.recs
@@ -499,6 +504,20 @@ TraceStoreQuery ==
                        ELSE IF k \in exact THEN <<st.cached[k][1], Min(st.cached[k][2], Ev.t1)>>
                        ELSE st.cached[k]]]
               ELSE st
+
+(* StoreRefresh (diagnostic): get_next_refresh() over [t0, t1] returned e.out = <<"none">> | <<"some", ms>>:   *)
+(* the earliest refresh instant among the cached records whose refresh instant has passed (expired records  *)
+(* are never purged, so they keep being reported: modelled as the code behaves)                              *)
+RefreshLo(k) == st.recv[k][1] + RefreshDelay(st.recv[k][3]) * 1000
+RefreshHi(k) == st.recv[k][2] + RefreshDelay(st.recv[k][3]) * 1000
+TraceStoreRefresh ==
+  /\ Ev.ev = "StoreRefresh" /\ st' = st
+  /\ LET ks == DOMAIN st.recv IN
+     Rule(l, "NextRefresh",
+          IF Ev.out[1] = "none" THEN \A k \in ks : RefreshHi(k) + 1 >= Ev.t0        \* nothing surely overdue
+          ELSE /\ \E k \in ks : Ev.out[2] >= RefreshLo(k) - 1 /\ Ev.out[2] <= RefreshHi(k) + 1 /\ RefreshLo(k) - 1 <= Ev.t1
+               /\ \A k \in ks : (RefreshHi(k) + 1 < Ev.t0) => Ev.out[2] <= RefreshHi(k) + 1,      \* it is the minimum
+          <<"next-refresh", Ev.out, "window", Ev.t0, Ev.t1, "schedule", {<<RefreshLo(k), RefreshHi(k)>> : k \in ks}>>)
 
 (* Reply: build_reply(query) against the store: e.out = <<"none">> | <<"some", pkt, unicast>> *)
 TraceReply ==
@@ -545,7 +564,7 @@ Stateless ==
 Next == /\ l <= Len(Rec)
         /\ l' = l + 1
         /\ \/ (Stateless /\ UNCHANGED st)
-           \/ TraceReset \/ TraceStoreOp \/ TraceStoreQuery \/ TraceReply
+           \/ TraceReset \/ TraceStoreOp \/ TraceStoreQuery \/ TraceStoreRefresh \/ TraceReply
 
 Spec == Init /\ [][Next]_vars
 
